@@ -1,5 +1,6 @@
 pub mod vc_diff;
 pub mod vc_rules;
+pub mod vc_cli;
 pub mod vc_timeout;
 pub mod vc_verdict;
 pub mod vc_state;
@@ -31,6 +32,7 @@ macro_rules! engines {
 engines! {
     vc_diff::VcDiff => ["C01", "C02", "C03"],
     vc_rules::VcRules => ["C04"],
+    vc_cli::VcCli => ["C15", "C18", "C20"],
     vc_timeout::VcTimeout => ["C14"],
     vc_verdict::VcVerdict => ["C05"],
     vc_state::VcState::new() => ["C12"],
